@@ -92,7 +92,9 @@ Check(exp) ==
        /\ acc' = <<>>
 Show(exp) == shown' = shown \cup {<<Obs[i].k, Obs[i].s>> : i \in DOMAIN Obs}
 \* the counters on the status line of the command whose finish is reported by this call, if it is written now
-LastF == LET st == SelectSeq(Obs, LAMBDA t : t.k = "status" /\ E.e = "Finished" /\ t.s = E.s) IN
+\* (batch mode: the whole stream arrives with the last call; the last status line of a non-console command is the one of the
+\* last finish unless a console command finished after it, which the stream cannot tell: only then it is not judged)
+LastF == LET st == SelectSeq(Obs, LAMBDA t : t.k = "status" /\ ((E.e = "Finished" /\ t.s = E.s) \/ (meta.batch /\ E.e = "BuildFinished"))) IN
          lastf' = IF Len(st) > 0 THEN [f |-> st[Len(st)].f, t |-> st[Len(st)].t] ELSE [f |-> 0, t |-> 0]
 
 Stats0 == [execs |-> 0, calls |-> 0, tokens |-> 0, heldItems |-> 0, consoleRuns |-> 0, failed |-> 0, outputs |-> 0]
